@@ -415,6 +415,9 @@ func (it *Interp) schedule() string {
 					}
 				}
 				if pick == nil { // alternative not enabled on this path: infeasible schedule
+					if it.ex.verify {
+						it.ex.diverged = fmt.Sprintf("decision %d (dpor): recorded goroutine %d is not runnable in the current code", decIdx, tid)
+					}
 					s.why = "infeasible"
 					break
 				}
